@@ -12,6 +12,10 @@
 //!   ctor=new                    (side=client) build the client with the deprecated TlsClientConfig::new
 //!   wildcard=0|1                (side=fficlient) allow_server_name_wildcard; name is then the dns_name verbatim ("*" included)
 //!   peer=openssl|rodbus|plain   offer=12|13|both
+//!   gate=level                  the peer's ClientHello is held back by a relay in front of the endpoint under test
+//!                               (side=server: peers openssl / rodbus) resp. the ClientHello of the client under test
+//!                               is held back (side=client); meanwhile set_decode_level is called on the ServerHandle
+//!                               resp. the Channel under test; then the handshake goes on. Same output as without.
 //!   pmode=ca|ss ptrust=<pem> pcert=<pem> pkey=<pem> [pchain=<pem>]   material of the peer (pchain: intermediates
 //!                               an openssl peer sends along; a rodbus peer gets them inside pcert)
 //! output line:  <OK|REFUSED>:<negotiated version as reported by openssl or ->:<roles seen by the
@@ -194,6 +198,84 @@ fn server_config(kv: &HashMap<String, String>, p: &str, min: MinTlsVersion) -> R
     TlsServerConfig::new(Path::new(trust), Path::new(cert), Path::new(key), None, min, mode_of(mode)).map_err(|e| format!("CONFIG:{e}"))
 }
 
+/// A TCP relay in front of a TLS endpoint that holds back everything (in particular the ClientHello) until it is
+/// released: the endpoint behind it has accepted the connection and is waiting inside its handshake meanwhile.
+struct Relay {
+    addr: SocketAddr,
+    release: Arc<std::sync::atomic::AtomicBool>,
+    accepted: Arc<AtomicUsize>,
+    stop: Arc<std::sync::atomic::AtomicBool>,
+}
+
+impl Drop for Relay {
+    fn drop(&mut self) {
+        self.stop.store(true, Ordering::SeqCst);
+        self.release.store(true, Ordering::SeqCst);
+    }
+}
+
+fn start_relay(ip: Ipv4Addr, target: SocketAddr) -> Option<Relay> {
+    let listener = std::net::TcpListener::bind((ip, 0)).ok()?;
+    let addr = listener.local_addr().ok()?;
+    listener.set_nonblocking(true).ok()?;
+    let release = Arc::new(std::sync::atomic::AtomicBool::new(false));
+    let accepted = Arc::new(AtomicUsize::new(0));
+    let stop = Arc::new(std::sync::atomic::AtomicBool::new(false));
+    let (rel, acc, stp) = (release.clone(), accepted.clone(), stop.clone());
+    std::thread::spawn(move || {
+        while !stp.load(Ordering::SeqCst) {
+            match listener.accept() {
+                Ok((client, _)) => {
+                    let _ = client.set_nonblocking(false);
+                    let Ok(server) = std::net::TcpStream::connect(target) else { continue };
+                    let _ = client.set_nodelay(true);
+                    let _ = server.set_nodelay(true);
+                    acc.fetch_add(1, Ordering::SeqCst);
+                    for (mut from, mut to) in [(client.try_clone().unwrap(), server.try_clone().unwrap()), (server, client)] {
+                        let (rel, stp) = (rel.clone(), stp.clone());
+                        std::thread::spawn(move || {
+                            while !rel.load(Ordering::SeqCst) && !stp.load(Ordering::SeqCst) {
+                                std::thread::sleep(Duration::from_millis(2));
+                            }
+                            let mut buf = [0u8; 16384];
+                            loop {
+                                match from.read(&mut buf) {
+                                    Ok(0) | Err(_) => break,
+                                    Ok(n) => {
+                                        if to.write_all(&buf[..n]).is_err() {
+                                            break;
+                                        }
+                                    }
+                                }
+                            }
+                            let _ = to.shutdown(std::net::Shutdown::Write);
+                        });
+                    }
+                }
+                Err(_) => std::thread::sleep(Duration::from_millis(2)),
+            }
+        }
+    });
+    Some(Relay { addr, release, accepted, stop })
+}
+
+/// while the relay holds the handshake back: `act` (a decode level change on the endpoint under test), then release
+fn gate_controller(relay: &Relay, act: impl FnOnce()) {
+    let end = Instant::now() + Duration::from_secs(10);
+    while relay.accepted.load(Ordering::SeqCst) == 0 && Instant::now() < end {
+        std::thread::sleep(Duration::from_millis(2));
+    }
+    // the endpoint behind the relay has accepted and waits for the ClientHello / the client waits for the ServerHello
+    std::thread::sleep(Duration::from_millis(80));
+    act();
+    std::thread::sleep(Duration::from_millis(80));
+    relay.release.store(true, Ordering::SeqCst);
+}
+
+fn chatty() -> DecodeLevel {
+    DecodeLevel::new(AppDecodeLevel::DataValues, FrameDecodeLevel::Payload, PhysDecodeLevel::Data)
+}
+
 struct ServerUnderTest {
     handle: ServerHandle,
     addr: SocketAddr,
@@ -221,6 +303,11 @@ fn start_server(rt: &tokio::runtime::Runtime, cfg: TlsServerConfig, authz: bool,
 }
 
 fn run_rodbus_client(rt: &tokio::runtime::Runtime, cfg: TlsClientConfig, addr: SocketAddr, do_request: bool) -> (bool, bool) {
+    run_rodbus_client_gated(rt, cfg, addr, do_request, None)
+}
+
+/// with a relay: the channel connects through it and its decode level is changed while its handshake is held back
+fn run_rodbus_client_gated(rt: &tokio::runtime::Runtime, cfg: TlsClientConfig, addr: SocketAddr, do_request: bool, gate: Option<&Relay>) -> (bool, bool) {
     // returns (connected announced, request answered)
     let (tx, rx) = std::sync::mpsc::channel();
     let _g = rt.enter();
@@ -233,6 +320,12 @@ fn run_rodbus_client(rt: &tokio::runtime::Runtime, cfg: TlsClientConfig, addr: S
         Some(Box::new(StateListener { tx })),
     );
     let _ = rt.block_on(channel.enable());
+    if let Some(relay) = gate {
+        let ch = channel.clone();
+        gate_controller(relay, || {
+            let _ = rt.block_on(ch.set_decode_level(chatty()));
+        });
+    }
     let connected = wait_state(&rx, Duration::from_secs(15)) == Some(true);
     let mut answered = false;
     if connected && do_request {
@@ -479,14 +572,52 @@ fn cell(rt: &tokio::runtime::Runtime, line: &str, openssl: &str, ip: Ipv4Addr) -
             Ok(s) => s,
             Err(e) => return e,
         };
+        let mut sut = sut;
         let mut version = "-".to_string();
         let ok;
+        // gate=level: the peer reaches the server through a relay that holds its ClientHello back; meanwhile the
+        // decode level of the server is changed through its handle; then the handshake goes on
+        let gated = get("gate") == "level";
+        let relay = if gated {
+            match start_relay(ip, sut.addr) {
+                Some(r) => Some(r),
+                None => return "NORELAY".to_string(),
+            }
+        } else {
+            None
+        };
+        let peer_addr = relay.as_ref().map(|r| r.addr).unwrap_or(sut.addr);
+        let handle = &mut sut.handle;
+        let res: Result<(bool, String), String> = std::thread::scope(|scope| {
+            if let Some(r) = relay.as_ref() {
+                scope.spawn(move || {
+                    gate_controller(r, || {
+                        let _ = rt.block_on(handle.set_decode_level(chatty()));
+                    })
+                });
+            }
+            match peer.as_str() {
+                "openssl" => openssl_client_exchange(openssl, peer_addr, &get("pcert"), &get("pkey"), &get("ptrust"), &offer, &get("pchain")),
+                "rodbus" if gated => {
+                    let pmin = if offer == "13" { MinTlsVersion::V1_3 } else { MinTlsVersion::V1_2 };
+                    match client_config(&kv, "p", pmin) {
+                        Ok(ccfg) => Ok((run_rodbus_client(rt, ccfg, peer_addr, true).1, "-".to_string())),
+                        Err(e) => Err(e),
+                    }
+                }
+                _ => Ok((false, "UNGATED".to_string())),
+            }
+        });
         match peer.as_str() {
-            "openssl" => match openssl_client_exchange(openssl, sut.addr, &get("pcert"), &get("pkey"), &get("ptrust"), &offer, &get("pchain")) {
+            "openssl" => match res {
                 Ok((o, v)) => {
                     ok = o;
                     version = v;
                 }
+                Err(e) => return e,
+            },
+            "rodbus" if gated => match res {
+                Ok((o, _)) => ok = o,
                 Err(e) => return e,
             },
             "rodbus" => {
@@ -556,7 +687,20 @@ fn cell(rt: &tokio::runtime::Runtime, line: &str, openssl: &str, ip: Ipv4Addr) -
                     p.finish();
                     return format!("NOPEER:{}", t.lines().next().unwrap_or(""));
                 }
-                let connected = if get("side") == "fficlient" {
+                let relay = if get("gate") == "level" && get("side") == "client" {
+                    match start_relay(ip, addr) {
+                        Some(r) => Some(r),
+                        None => {
+                            p.finish();
+                            return "NORELAY".to_string();
+                        }
+                    }
+                } else {
+                    None
+                };
+                let connected = if let Some(r) = relay.as_ref() {
+                    run_rodbus_client_gated(rt, cfg, r.addr, false, Some(r)).0
+                } else if get("side") == "fficlient" {
                     match run_ffi_client(&kv, addr) {
                         Ok(r) => r == Some(true),
                         Err(e) => {
@@ -586,7 +730,11 @@ fn cell(rt: &tokio::runtime::Runtime, line: &str, openssl: &str, ip: Ipv4Addr) -
                     Ok(s) => s,
                     Err(e) => return e,
                 };
-                let (connected, answered) = run_rodbus_client(rt, cfg, peer_server.addr, true);
+                let relay = if get("gate") == "level" { start_relay(ip, peer_server.addr) } else { None };
+                let (connected, answered) = match relay.as_ref() {
+                    Some(r) => run_rodbus_client_gated(rt, cfg, r.addr, true, Some(r)),
+                    None => run_rodbus_client(rt, cfg, peer_server.addr, true),
+                };
                 let calls = peer_server.calls.load(Ordering::SeqCst);
                 drop(peer_server.handle);
                 // TLS1.3: the client announces Connected before the server has judged the client's
